@@ -123,8 +123,12 @@ func c07Script(r *rand.Rand, n int) *scriptSpec {
 		}
 		bodies = append(bodies, b)
 	}
-	// a segment that the model will not let us send (the actor has ended)
-	bodies = append(bodies, msgs(ids, 2))
+	// a segment that the model will not let us send (the actor has ended); without it the
+	// batch that holds the stop request ends with its own last item instead of a gate
+	// (e.g. the crash while draining is on the very last message of the batch)
+	if r.Intn(3) != 0 {
+		bodies = append(bodies, msgs(ids, 2))
+	}
 	spec.Segments = buildSegments(ids, bodies...)
 	if r.Intn(5) == 0 {
 		spec.Children = 1 + r.Intn(2)
